@@ -355,6 +355,22 @@ def run(chk):
     okpem = bool(cs) and all(term_of(v) in res_ for v, _s in itp2.watch_returns["keys:VerifyingKey.from_pem"])
     chk.ob("R08.6", "from_pem returns exactly from_der(unpem(text))", okpem, loc="keys:VerifyingKey.from_pem", key="C08|R08.6|pem", detail="from_pem does not return through from_der")
 
+    # ---------------- shared known finding (C06 R06.4): the subgroup test is evaluated with an
+    # identity predicate that conflates Y = 0 with the identity
+    from sa.modp import ModP, identity_outcome
+    M = ModP(p, "PointJacobi")
+    chk.rule("R06.4", "(shared with C06) the subgroup test n*P == INFINITY relies on an exact identity predicate")
+    hit = {}
+    for t in M.tests:
+        nm = t.func.node.name
+        if nm not in ("__mul__", "_mul_precompute", "__eq__") or t.kind != "zero" or "Y" not in t.roles or "X" in t.roles or "Z" in t.roles:
+            continue
+        if identity_outcome(t.stmt, t.node):
+            hit.setdefault(nm, []).append(t.node.lineno)
+    if hit:
+        chk.ob("R06.4", "subgroup test path Public_key.__init__ -> PointJacobi.__rmul__/__mul__ -> == INFINITY uses an exact identity predicate", False, loc="ecdsa:Public_key.__init__",
+               key="C08|R06.4|subgroup-identity", detail="the subgroup test is evaluated through Y == 0 identity tests in %s: points of order 2 (and of order 2n) pass n*P == INFINITY" % sorted(hit),
+               witness="Public_key.__init__ -> PointJacobi.__mul__ (Y-role zero test) -> PointJacobi.__eq__ (Y-role zero test)")
     # ---------------- R08.7 cofactors
     e = p.modules["ecdsa"]
     missing = []
